@@ -356,12 +356,8 @@ impl Archive {
                     // HET table key is based on table name
                     let key = hash_string("(hash table)", hash_type::FILE_KEY);
 
-                    match HetTable::read(
-                        &mut self.reader,
-                        self.archive_offset + het_pos,
-                        het_size,
-                        key,
-                    ) {
+                    let het_offset = self.absolute_pos(het_pos);
+                    match HetTable::read(&mut self.reader, het_offset, het_size, key) {
                         Ok(het) => {
                             let file_count = het.header.max_file_count;
                             log::info!("Loaded HET table with {file_count} max files");
@@ -406,7 +402,7 @@ impl Archive {
                     // First, check if the BET offset actually points to a HET table
                     // This is a known issue in some MoP update archives
                     self.reader
-                        .seek(SeekFrom::Start(self.archive_offset + bet_pos))?;
+                        .seek(SeekFrom::Start(self.absolute_pos(bet_pos)))?;
                     let mut sig_buf = [0u8; 4];
                     self.reader.read_exact(&mut sig_buf)?;
 
@@ -420,17 +416,13 @@ impl Archive {
                     } else {
                         // Reset position and proceed with normal BET loading
                         self.reader
-                            .seek(SeekFrom::Start(self.archive_offset + bet_pos))?;
+                            .seek(SeekFrom::Start(self.absolute_pos(bet_pos)))?;
 
                         // BET table key is based on table name
                         let key = hash_string("(block table)", hash_type::FILE_KEY);
 
-                        match BetTable::read(
-                            &mut self.reader,
-                            self.archive_offset + bet_pos,
-                            bet_size,
-                            key,
-                        ) {
+                        let bet_offset = self.absolute_pos(bet_pos);
+                        match BetTable::read(&mut self.reader, bet_offset, bet_size, key) {
                             Ok(bet) => {
                                 let file_count = bet.header.file_count;
                                 log::info!("Loaded BET table with {file_count} files");
@@ -458,7 +450,7 @@ impl Archive {
         // Only skip them if the archive appears to be truncated/corrupted
         if self.header.hash_table_size > 0 {
             // Load hash table
-            let hash_table_offset = self.archive_offset + self.header.get_hash_table_pos();
+            let hash_table_offset = self.absolute_pos(self.header.get_hash_table_pos());
             let uncompressed_size = self.header.hash_table_size as usize * 16; // Each hash entry is 16 bytes
 
             // For V4 archives, we have explicit compressed size info
@@ -479,7 +471,7 @@ impl Archive {
 
                     // Check if it would extend beyond file
                     let file_size = self.reader.get_ref().metadata()?.len();
-                    if hash_table_offset + compressed_size > file_size {
+                    if hash_table_offset.saturating_add(compressed_size) > file_size {
                         log::warn!("Hash table extends beyond file, skipping");
                     } else {
                         // Read potentially compressed table
@@ -521,7 +513,7 @@ impl Archive {
             if self.hash_table.is_none() {
                 // For V3 and earlier, or V4 with invalid sizes, we need to detect if tables are compressed
                 // by checking the available space between tables
-                let block_table_offset = self.archive_offset + self.header.get_block_table_pos();
+                let block_table_offset = self.absolute_pos(self.header.get_block_table_pos());
                 let available_space = if block_table_offset > hash_table_offset {
                     (block_table_offset - hash_table_offset) as usize
                 } else {
@@ -604,7 +596,7 @@ impl Archive {
 
         if self.header.block_table_size > 0 {
             // Load block table
-            let block_table_offset = self.archive_offset + self.header.get_block_table_pos();
+            let block_table_offset = self.absolute_pos(self.header.get_block_table_pos());
             let uncompressed_size = self.header.block_table_size as usize * 16; // Each block entry is 16 bytes
 
             // For V4 archives, we have explicit compressed size info
@@ -625,7 +617,7 @@ impl Archive {
 
                     // Check if it would extend beyond file
                     let file_size = self.reader.get_ref().metadata()?.len();
-                    if block_table_offset + compressed_size > file_size {
+                    if block_table_offset.saturating_add(compressed_size) > file_size {
                         log::warn!("Block table extends beyond file, skipping");
                     } else {
                         // Read potentially compressed table
@@ -670,7 +662,7 @@ impl Archive {
                 let file_size = self.reader.get_ref().metadata()?.len();
                 let next_section = if let Some(hi_block_pos) = self.header.hi_block_table_pos {
                     if hi_block_pos != 0 {
-                        self.archive_offset + hi_block_pos
+                        self.absolute_pos(hi_block_pos)
                     } else {
                         file_size
                     }
@@ -752,8 +744,9 @@ impl Archive {
         if let Some(hi_block_pos) = self.header.hi_block_table_pos
             && hi_block_pos != 0
         {
-            let hi_block_offset = self.archive_offset + hi_block_pos;
-            let hi_block_end = hi_block_offset + (self.header.block_table_size as u64 * 8);
+            let hi_block_offset = self.absolute_pos(hi_block_pos);
+            let hi_block_end =
+                hi_block_offset.saturating_add(self.header.block_table_size as u64 * 8);
 
             let file_size = self.reader.get_ref().metadata()?.len();
             if hi_block_end > file_size {
@@ -827,8 +820,10 @@ impl Archive {
             // The size comes from the header: a table that cannot fit into the file
             // cannot match its digest (and must not drive an allocation)
             let file_len = self.reader.get_ref().metadata()?.len();
-            if (self.archive_offset + offset)
-                .checked_add(size)
+            if self
+                .archive_offset
+                .checked_add(offset)
+                .and_then(|start| start.checked_add(size))
                 .is_none_or(|end| end > file_len)
             {
                 return Ok(false);
@@ -1228,7 +1223,7 @@ impl Archive {
                                     filename: filename.to_string(),
                                     hash_index: 0, // Not applicable for HET/BET
                                     block_index: candidate_index as usize,
-                                    file_pos: self.archive_offset + bet_info.file_pos,
+                                    file_pos: self.absolute_pos(bet_info.file_pos),
                                     compressed_size: bet_info.compressed_size,
                                     file_size: bet_info.file_size,
                                     flags: bet_info.flags,
@@ -1293,7 +1288,7 @@ impl Archive {
                 filename: filename.to_string(),
                 hash_index,
                 block_index: hash_entry.block_index as usize,
-                file_pos: self.archive_offset + file_pos,
+                file_pos: self.absolute_pos(file_pos),
                 compressed_size: block_entry.compressed_size as u64,
                 file_size: block_entry.file_size as u64,
                 flags: block_entry.flags,
@@ -1684,6 +1679,9 @@ impl Archive {
                 // CRC is calculated on the decompressed data
                 let data_to_check = if file_info.is_compressed() {
                     // We need to decompress first to check CRC
+                    if data.is_empty() {
+                        return Err(Error::compression("Empty compressed data"));
+                    }
                     let compression_type = data[0];
                     let compressed_data = &data[1..];
                     compression::decompress(
@@ -1868,10 +1866,19 @@ impl Archive {
 
         if is_single_unit {
             log::debug!("Patch file is stored as single unit");
-            let compressed_data_size =
-                file_info.compressed_size as usize - patch_info_length as usize;
+            // Both sizes are untrusted: the data has to follow the patch info inside the file
+            let compressed_data_size = file_info
+                .compressed_size
+                .checked_sub(patch_info_length as u64)
+                .ok_or_else(|| {
+                    Error::invalid_format(format!(
+                        "Patch info length {patch_info_length} exceeds the stored size {}",
+                        file_info.compressed_size
+                    ))
+                })?;
+            self.ensure_stored_range(file_info.file_pos, file_info.compressed_size)?;
 
-            let mut data = vec![0u8; compressed_data_size];
+            let mut data = vec![0u8; compressed_data_size as usize];
             self.reader.read_exact(&mut data)?;
 
             log::debug!(
@@ -1892,6 +1899,9 @@ impl Archive {
 
             // Decompress if needed
             if file_info.is_compressed() {
+                if data.is_empty() {
+                    return Err(Error::compression("Empty compressed patch data"));
+                }
                 let compression_type = data[0];
                 let compressed_data = &data[1..];
 
@@ -1923,6 +1933,8 @@ impl Archive {
 
             // Read sector offset table
             let offset_table_size = (sector_count + 1) * 4;
+            let table_pos = file_info.file_pos.saturating_add(patch_info_length as u64);
+            self.ensure_stored_range(table_pos, offset_table_size as u64)?;
             let mut offset_data = vec![0u8; offset_table_size];
             self.reader.read_exact(&mut offset_data)?;
 
@@ -1942,11 +1954,21 @@ impl Archive {
             log::debug!("Sector offsets: {:?}", &sector_offsets);
 
             // Read and decompress each sector
-            let mut decompressed_data = Vec::with_capacity(patch_data_size as usize);
+            // The declared size is untrusted: reserve no more than the stored data could
+            // plausibly expand to, the vector grows as needed
+            let mut decompressed_data = Vec::with_capacity(
+                (patch_data_size as usize)
+                    .min((file_info.compressed_size as usize).saturating_mul(4)),
+            );
 
             for i in 0..sector_count {
                 let sector_start = sector_offsets[i] as usize;
                 let sector_end = sector_offsets[i + 1] as usize;
+                if sector_end <= sector_start {
+                    return Err(Error::invalid_format(format!(
+                        "Invalid sector offsets: start={sector_start}, end={sector_end} for sector {i}"
+                    )));
+                }
                 let sector_compressed_size = sector_end - sector_start;
 
                 log::debug!(
@@ -1958,8 +1980,8 @@ impl Archive {
 
                 // Sector offsets are relative to the START of the offset table, NOT after it
                 // So we need to seek to: file_pos + TPatchInfo + sector_offset
-                let sector_file_pos =
-                    file_info.file_pos + patch_info_length as u64 + sector_start as u64;
+                let sector_file_pos = table_pos.saturating_add(sector_start as u64);
+                self.ensure_stored_range(sector_file_pos, sector_compressed_size as u64)?;
 
                 self.reader.seek(SeekFrom::Start(sector_file_pos))?;
 
@@ -1983,8 +2005,8 @@ impl Archive {
                 );
 
                 // Decompress using standard MPQ decompression
-                let expected_size =
-                    sector_size.min(patch_data_size as usize - decompressed_data.len());
+                let expected_size = sector_size
+                    .min((patch_data_size as usize).saturating_sub(decompressed_data.len()));
                 let sector_decompressed = compression::decompress(
                     &sector_data[1..], // Skip compression method byte
                     compression_method,
@@ -2047,7 +2069,7 @@ impl Archive {
                 filename: format!("file_{hash_index:08}.dat"),
                 hash_index,
                 block_index: block_idx,
-                file_pos: self.archive_offset + file_pos,
+                file_pos: self.absolute_pos(file_pos),
                 compressed_size: block_entry.compressed_size as u64,
                 file_size: block_entry.file_size as u64,
                 flags: block_entry.flags,
@@ -2065,7 +2087,7 @@ impl Archive {
                 .ok_or_else(|| Error::invalid_format("Invalid file index"))?;
 
             // For HET/BET files, the file position is calculated differently
-            let file_pos = self.archive_offset + bet_info.file_pos;
+            let file_pos = self.absolute_pos(bet_info.file_pos);
 
             FileInfo {
                 filename: format!("file_{hash_index:08}.dat"),
@@ -2183,6 +2205,14 @@ impl Archive {
             // Multi-sector compressed file
             self.read_sectored_file(&file_info, key)
         }
+    }
+
+    /// Position in the archive file of a position stored in the header or a table
+    ///
+    /// Stored positions are untrusted: one that would overflow saturates to a position
+    /// beyond every file, which all range checks and reads reject.
+    fn absolute_pos(&self, pos: u64) -> u64 {
+        self.archive_offset.saturating_add(pos)
     }
 
     /// Make sure `len` stored bytes at `pos` can exist in the archive file before a
@@ -2306,7 +2336,8 @@ impl Archive {
         );
 
         // Reusable buffer for sector reading (grown on demand below)
-        let max_sector_size = (sector_size + 1024).min(file_info.compressed_size as usize + 1024);
+        let max_sector_size =
+            (sector_size + 1024).min((file_info.compressed_size as usize).saturating_add(1024));
         let mut sector_buffer = vec![0u8; max_sector_size];
 
         for i in 0..sector_count {
@@ -2324,7 +2355,7 @@ impl Archive {
             let sector_size_compressed = (sector_end - sector_start) as usize;
 
             // Calculate expected decompressed size for this sector
-            let remaining = file_info.file_size as usize - decompressed_data.len();
+            let remaining = (file_info.file_size as usize).saturating_sub(decompressed_data.len());
             let expected_size = remaining.min(sector_size);
 
             // Seek to sector data - offsets are absolute from file position
@@ -2564,15 +2595,18 @@ impl Archive {
         let actual_size = if let Some(bet_pos) = self.header.bet_table_pos {
             if bet_pos > het_pos {
                 // BET table comes after HET
-                bet_pos - het_pos
+                Some(bet_pos - het_pos)
             } else {
                 // Calculate from hash table position
-                self.header.get_hash_table_pos() - het_pos
+                self.header.get_hash_table_pos().checked_sub(het_pos)
             }
         } else {
             // Calculate from hash table position
-            self.header.get_hash_table_pos() - het_pos
-        };
+            self.header.get_hash_table_pos().checked_sub(het_pos)
+        }
+        .ok_or_else(|| {
+            Error::invalid_format("HET table position lies behind the table that should follow it")
+        })?;
 
         log::debug!("HET table position: 0x{het_pos:X}, calculated size: {actual_size} bytes");
 
@@ -2585,7 +2619,13 @@ impl Archive {
         log::debug!("Determining BET table size from file structure");
 
         // Calculate the actual size based on what comes after BET table (usually hash table)
-        let actual_size = self.header.get_hash_table_pos() - bet_pos;
+        let actual_size = self
+            .header
+            .get_hash_table_pos()
+            .checked_sub(bet_pos)
+            .ok_or_else(|| {
+                Error::invalid_format("BET table position lies behind the hash table")
+            })?;
 
         log::debug!("BET table position: 0x{bet_pos:X}, calculated size: {actual_size} bytes");
 
@@ -2667,6 +2707,7 @@ impl Archive {
         uncompressed_size: usize,
     ) -> Result<Vec<u8>> {
         // Seek to the table position
+        self.ensure_stored_range(offset, compressed_size)?;
         self.reader.seek(SeekFrom::Start(offset))?;
 
         // Read the compressed data
@@ -2716,10 +2757,10 @@ impl Archive {
         let file_size = self.reader.get_ref().metadata()?.len();
 
         // Calculate expected archive end position
-        let archive_end = self.archive_offset + self.header.get_archive_size();
+        let archive_end = self.absolute_pos(self.header.get_archive_size());
 
         // Check if there's enough space for a strong signature after the archive
-        if file_size < archive_end + STRONG_SIGNATURE_SIZE as u64 {
+        if file_size < archive_end.saturating_add(STRONG_SIGNATURE_SIZE as u64) {
             log::debug!("File too small for strong signature");
             return Ok(SignatureStatus::None);
         }
